@@ -279,26 +279,36 @@ impl<KC, DC, C> Database<KC, DC, C> {
     pub fn is_empty(&self, txn: &RoTxn) -> Result<bool> { Ok(txn.s().count() == 0) }
     pub fn clear(&self, txn: &mut RwTxn) -> Result<()> { let s = unsafe { &mut *txn.txn.store }; let mut i = 0; while i < CAP { s.used[i] = false; i += 1; } Ok(()) }
     pub fn iter<'txn>(&self, txn: &'txn RoTxn) -> Result<RoIter<'txn, KC, DC>> {
-        Ok(RoIter { c: Cursor { store: txn.store, pv: 0, pm: 0, started: false, cur: 0 }, _m: PhantomData })
+        Ok(RoIter { c: Cursor { store: txn.store, pv: 0, pm: 0, started: false, cur: 0, rev: false }, _m: PhantomData })
     }
     pub fn prefix_iter<'a, 'txn>(&self, txn: &'txn RoTxn, prefix: &'a KC::EItem) -> Result<RoPrefix<'txn, KC, DC>>
     where KC: BytesEncode<'a> {
         let p = KC::bytes_encode(prefix).map_err(Error::Encoding)?; let (pv, pm) = p64(&p);
-        Ok(RoIter { c: Cursor { store: txn.store, pv, pm, started: false, cur: 0 }, _m: PhantomData })
+        Ok(RoIter { c: Cursor { store: txn.store, pv, pm, started: false, cur: 0, rev: false }, _m: PhantomData })
+    }
+    pub fn rev_prefix_iter<'a, 'txn>(&self, txn: &'txn RoTxn, prefix: &'a KC::EItem) -> Result<RoRevPrefix<'txn, KC, DC>>
+    where KC: BytesEncode<'a> {
+        let p = KC::bytes_encode(prefix).map_err(Error::Encoding)?; let (pv, pm) = p64(&p);
+        Ok(RoIter { c: Cursor { store: txn.store, pv, pm, started: false, cur: 0, rev: true }, _m: PhantomData })
+    }
+    pub fn rev_iter<'txn>(&self, txn: &'txn RoTxn) -> Result<RoRevIter<'txn, KC, DC>> {
+        Ok(RoIter { c: Cursor { store: txn.store, pv: 0, pm: 0, started: false, cur: 0, rev: true }, _m: PhantomData })
     }
     pub fn prefix_iter_mut<'a, 'txn>(&self, txn: &'txn mut RwTxn, prefix: &'a KC::EItem) -> Result<RwPrefix<'txn, KC, DC>>
     where KC: BytesEncode<'a> {
         let p = KC::bytes_encode(prefix).map_err(Error::Encoding)?; let (pv, pm) = p64(&p);
-        Ok(RwPrefix { c: Cursor { store: txn.txn.store, pv, pm, started: false, cur: 0 }, _m: PhantomData })
+        Ok(RwPrefix { c: Cursor { store: txn.txn.store, pv, pm, started: false, cur: 0, rev: false }, _m: PhantomData })
     }
 }
 
 /// LMDB-like cursor: remembers the key it stands on; next = smallest key greater than it.
-struct Cursor { store: *mut Store, pv: u64, pm: u64, started: bool, cur: u64 }
+struct Cursor { store: *mut Store, pv: u64, pm: u64, started: bool, cur: u64, rev: bool }
 impl Cursor {
     fn advance(&mut self) -> Option<usize> {
         let s = unsafe { &*self.store };
-        let slot = if !self.started { self.started = true; s.seek(self.pv, false) } else { s.seek(self.cur, true) };
+        let slot = if self.rev {
+            if !self.started { self.started = true; s.seek_back(self.pv | !self.pm, false) } else { s.seek_back(self.cur, true) }
+        } else if !self.started { self.started = true; s.seek(self.pv, false) } else { s.seek(self.cur, true) };
         match slot { Some(i) if s.keys[i] & self.pm == self.pv => { self.cur = s.keys[i]; Some(i) } _ => None }
     }
     fn on(&self) -> Option<usize> { if !self.started { return None; } unsafe { &*self.store }.find(self.cur) }
@@ -306,6 +316,8 @@ impl Cursor {
 
 pub struct RoIter<'txn, KC, DC> { c: Cursor, _m: PhantomData<(&'txn (), KC, DC)> }
 pub type RoPrefix<'txn, KC, DC> = RoIter<'txn, KC, DC>;
+pub type RoRevPrefix<'txn, KC, DC> = RoIter<'txn, KC, DC>;
+pub type RoRevIter<'txn, KC, DC> = RoIter<'txn, KC, DC>;
 impl<'txn, KC, DC> RoIter<'txn, KC, DC> {
     pub fn remap_types<KC2, DC2>(self) -> RoIter<'txn, KC2, DC2> { RoIter { c: self.c, _m: PhantomData } }
     pub fn remap_key_type<KC2>(self) -> RoIter<'txn, KC2, DC> { self.remap_types() }
